@@ -329,14 +329,29 @@ func c07Escalating(f Op) Op {
 // "ok" taken by the receiving loop, "nosub" nobody subscribed within the bound, "stuck" subscribed but not
 // taken, "done" the scenario's main call returned first (or `done` was closed for another reason).
 func (c *c07Comm) deliver(session string, typ comm.MessageType, from peer.ID, payload []byte, done <-chan struct{}) string {
+	return c.deliverMsg(&comm.WrappedMessage{MessageType: typ, SessionID: session, Payload: payload, From: from}, done, false)
+}
+
+// deliverMsg hands a prepared message over (anyAttempt: also to subscriptions older than the mark).
+func (c *c07Comm) deliverMsg(msg *comm.WrappedMessage, done <-chan struct{}, anyAttempt bool) string {
+	session, typ := msg.SessionID, msg.MessageType
 	var sub *c07Sub
-	switch c.waitUntil(c07Patience(), done, func() bool { sub = c.subscriber(session, typ); return sub != nil }) {
+	switch c.waitUntil(c07Patience(), done, func() bool {
+		if anyAttempt {
+			m := c.mark
+			c.mark = 0
+			sub = c.subscriber(session, typ)
+			c.mark = m
+		} else {
+			sub = c.subscriber(session, typ)
+		}
+		return sub != nil
+	}) {
 	case "done":
 		return "done"
 	case "timeout":
 		return "nosub"
 	}
-	msg := &comm.WrappedMessage{MessageType: typ, SessionID: session, Payload: payload, From: from}
 	timer := time.NewTimer(c07Patience())
 	defer timer.Stop()
 	select {
